@@ -6,7 +6,8 @@ From FlacWriters Require Import Meta Params Finalize Writers.
 From FlacWriters Require Import Params_proofs.
 From FlacReaders Require Readers Spec Ser RNum Seek.
 From FlacWriters Require Import Lists_proofs Writers_proofs.
-From FlacE2E Require Import Bridge E2E SampleE2E Success ChannelE2E ReadBridge ReadersE2E.
+From FlacWriters Require Import Bytes_proofs.
+From FlacE2E Require Import Bridge E2E SampleE2E Success ChannelE2E ByteE2E ReadBridge ReadersE2E.
 Import ListNotations.
 Open Scope N_scope.
 
@@ -136,6 +137,25 @@ Theorem C01_end_to_end_channels : forall o L md5, (forall l, length (md5 l) = 16
     stack blocks (repeat [] (N.to_nat ch)) = all.
 Proof. intros. eapply e2e_channel_pcm; eauto. Qed.
 
+(* C01 for FlacByteWriter, either byte order, on the bytes themselves: ANY chunking of the writes (also in the middle of a
+   sample); the file decodes to exactly the whole PCM frames of the samples the bytes spell out *)
+Theorem C01_end_to_end_bytes : forall o L md5, (forall l, length (md5 l) = 16%nat) ->
+  forall p rate bps en wo ch total w chunks f,
+  options_wf wo ->
+  byte_new p en [] wo rate bps ch total = Ok w ->
+  byte_run (encB o L rate bps) md5 p w chunks = Ok f ->
+  Forall byte_ok (concat chunks) ->
+  let n := N.to_nat (bytes_per_sample_of bps) in
+  let samples := decode_bytes en n (concat chunks) in
+  forallb (FlacCodec.Wf.fits bps) samples = true ->
+  N.of_nat (length samples) < 2 ^ 36 ->
+  exists blocks,
+    FlacCodec.Stream.dec_stream (f_stream f) =
+      Some (conv_si (f_si f), map FlacCodec.Stream.interleave_frame blocks, FlacCodec.Stream.EndEof) /\
+    concat (map FlacCodec.Stream.interleave_frame blocks) = firstn (N.to_nat ch * (length samples / N.to_nat ch)) samples.
+Proof. intros. eapply e2e_byte_pcm; eauto. Qed.
+
+Print Assumptions C01_end_to_end_bytes.
 Print Assumptions C01_end_to_end_channels.
 Print Assumptions C01_written_samples_are_read.
 Print Assumptions C01_sample_writer_lossless.
